@@ -1,6 +1,6 @@
 """C01 -- Galerkin entries equal the 4-fold heat-kernel integral.
 Structure of the computation (DESIGN.md E2, E3, E4)."""
-from .. import quadalg, meshrules, causal, kernels, panels
+from .. import quadalg, meshrules, effects, causal, kernels, panels
 from ..cas import run_tasks
 from .. import problems_cert as pc
 
@@ -48,6 +48,7 @@ def run(prog, report, tier):
     panels.check_asserts(prog, report)
     panels.check_binding(prog, report)
     panels.check_even(prog, report)
+    effects.check_memo(prog, report, files={effects.SL, 'src/quadrature.py'})
     meshrules.check_element_geometry(prog, report)
     quadalg.check_affine(prog, report)
     quadalg.check_layout(prog, report)
